@@ -181,7 +181,7 @@ package vgirpc
 //@   # handler's logs; repaired defect: it used to skip the check) as much as the valued one —
 //@   # was measured and passed the check
 //@   at call (*HttpServer).writeArrow assert [within] arg2 == 200 ==> budgetOK && len(arg3) == measured && (h.maxResponseBytes > 0 ==> len(arg3) <= h.maxResponseBytes)
-//@   at call (*HttpServer).writeUnaryCapError#2 assert [preflight] h.maxExternalizedResponseBytes > 0 && predicted > h.maxExternalizedResponseBytes && arg5 != nil && typeof(arg5) == *externalCapError
+//@   at call (*HttpServer).writeUnaryCapError#3 assert [preflight] h.maxExternalizedResponseBytes > 0 && predicted > h.maxExternalizedResponseBytes && arg5 != nil && typeof(arg5) == *externalCapError
 //@   at call newExternalCapError assert [preflightargs] arg1 == predicted && arg2 == h.maxExternalizedResponseBytes
 //@   at call (*HttpServer).writeUnaryCapError after enforceResponseBudgets assert [replaced] !budgetOK && arg5 == budgetErr && arg5 != nil
 //
